@@ -26,15 +26,19 @@ type LeveldbDiskStorage struct {
 
 // Create a new table, destroying any existing table.
 func (f LeveldbDiskStorage) Create(tbl *btapb.Table) Rows {
-	f.SetTableMeta(tbl)
-	verifYield("disk.Create.metaWritten")
 	path := filepath.Join(f.Root, tbl.Name)
 	newFunc := func(nuke bool) *leveldb.DB {
 		return newDiskDb(path, nuke)
 	}
 
+	// Destroy any existing data (e.g. of a deleted table of the same name) before the table becomes visible:
+	// if the process dies in between, a restart must not serve the new table with the old rows.
+	db := newFunc(true)
+	f.SetTableMeta(tbl)
+	verifYield("disk.Create.metaWritten")
+
 	return &leveldbRows{
-		db:      newFunc(true),
+		db:      db,
 		newFunc: newFunc,
 	}
 }
